@@ -1,6 +1,7 @@
 //! C11 – girth and BFS distances are exact graph quantities.
 
 use crate::ctx::{Local, Run, guard, panic_class};
+use crate::json::J;
 use crate::genm::Mat;
 use crate::oracle::Graph;
 use crate::rng::{Dig, Rng};
@@ -301,13 +302,119 @@ pub fn check_graph(l: &mut Local, m: &Mat, rng: &mut Rng) {
     l.sample(|| m.json().set("girth", girth).set("roots_checked", m.rows + m.cols));
 }
 
+/// graphs with a node of very large degree (hundreds of neighbours): the only cycle through the hub
+/// leaves it through two neighbours whose positions in the adjacency list are far apart
+fn high_degree_graph(rng: &mut Rng) -> Mat {
+    let deg = *rng.pick(&[255usize, 256, 257, 258, 300, 511, 512, 513, 600]);
+    let tall = rng.coin();
+    // hub = column 0 connected to all `deg` rows (or row 0 connected to all columns when wide)
+    let a = rng.below(deg);
+    let mut b = (a + *rng.pick(&[1usize, 255, 256, 257, 512])) % deg;
+    if b == a {
+        b = (a + 1) % deg;
+    }
+    let mut e: Vec<(usize, usize)> = Vec::new();
+    if tall {
+        for r in 0..deg {
+            e.push((r, 0));
+        }
+        // second column closes a 4-cycle through rows a and b; third column hangs off as a pendant
+        e.push((a, 1));
+        e.push((b, 1));
+        e.push((rng.below(deg), 2));
+        Mat::new(deg, 3, e, "hub-column-high-degree")
+    } else {
+        for c in 0..deg {
+            e.push((0, c));
+        }
+        e.push((1, a));
+        e.push((1, b));
+        e.push((2, rng.below(deg)));
+        Mat::new(3, deg, e, "hub-row-high-degree")
+    }
+}
+
+/// like check_graph but only for a few roots (the hub, the cycle nodes, a pendant), all bounds
+fn check_graph_roots(l: &mut Local, m: &Mat, roots: &[usize]) {
+    let g = Graph::new(m.rows, m.cols, &m.e);
+    let h = m.to_sparse();
+    let girth = g.girth();
+    l.eval();
+    match guard(|| h.girth()) {
+        Ok(got) if got == girth => {}
+        Ok(got) => l.violation(format!("girth() wrong on {} graph", m.family), J::obj().set("rows", m.rows).set("cols", m.cols).set("family", m.family).set("got", got).set("expected", girth)),
+        Err(p) => l.violation(format!("girth() panicked: {}", panic_class(&p)), J::obj().set("family", m.family).set("panic", p)),
+    }
+    for &node_i in roots {
+        let (node, name) = if node_i < m.rows { (Node::Row(node_i), format!("Row({})", node_i)) } else { (Node::Col(node_i - m.rows), format!("Col({})", node_i - m.rows)) };
+        let lg = g.local_girth(node_i);
+        for b in [0usize, 3, 4, 5, 6, 8, usize::MAX] {
+            l.eval();
+            match guard(|| h.girth_at_node_with_max(node, b)) {
+                Ok(got) if got == cut(lg, b) => {}
+                Ok(got) => {
+                    l.violation(
+                        format!("girth_at_node_with_max wrong on a graph with a node of degree >= 255 ({})", if got.is_some() { "reports a value" } else { "reports none" }),
+                        J::obj().set("rows", m.rows).set("cols", m.cols).set("family", m.family).set("entries_tail", crate::json::jentries(&m.e[m.e.len().saturating_sub(6)..])).set("root", name.clone()).set("bound", b).set("got", got).set("expected", cut(lg, b)),
+                    );
+                    return;
+                }
+                Err(p) => {
+                    l.violation(format!("girth_at_node_with_max panicked: {}", panic_class(&p)), J::obj().set("family", m.family).set("root", name.clone()).set("panic", p));
+                    return;
+                }
+            }
+        }
+        if lg.is_some() {
+            let mut d = Dig::new();
+            d.u(m.rows as u64).u(m.cols as u64).entries(&m.e[m.e.len() - 3..]).u(node_i as u64);
+            l.nt(d.get());
+        }
+        // bfs distances from this root
+        l.eval();
+        if let Ok(res) = guard(|| h.bfs(node)) {
+            let got: Vec<Option<usize>> = res.row_nodes_distance.iter().cloned().chain(res.col_nodes_distance.iter().cloned()).collect();
+            if got != g.dist(node_i) {
+                l.violation("bfs distances differ from true shortest paths", J::obj().set("family", m.family).set("root", name.clone()));
+            }
+        }
+    }
+}
+
 pub fn run(run: &mut Run) {
-    run.rule = "graphs up to 14x14 in 11 families (forests, cycle with pendant trees, two cycles joined by a path, dense, disconnected, complete, circulant, forest+edge, cycle+chord+pendant path, sparse); for each graph ALL roots (rows and columns) and ALL bounds 0..g+3 and usize::MAX are queried and compared with a plain-BFS oracle on an explicit adjacency list (local girth = min over neighbours u of 1 + dist(u,v) without edge uv); non-trivial = (graph, root) where the graph has a cycle and the root does not lie on a shortest one".into();
+    run.rule = "graphs up to 14x14 in 11 families plus hub graphs with a node of degree 255..600 whose only cycle leaves it through adjacency-list positions a and a+{1,255,256,257,512} (forests, cycle with pendant trees, two cycles joined by a path, dense, disconnected, complete, circulant, forest+edge, cycle+chord+pendant path, sparse); for each graph ALL roots (rows and columns) and ALL bounds 0..g+3 and usize::MAX are queried and compared with a plain-BFS oracle on an explicit adjacency list (local girth = min over neighbours u of 1 + dist(u,v) without edge uv); non-trivial = (graph, root) where the graph has a cycle and the root does not lie on a shortest one".into();
     run.assumptions = vec!["oracle BFS and edge-removal local girth are written from the definitions".into()];
     let n = if cfg!(miri) { 12 } else { run.tier.n(250_000, 8_000_000) };
     run.sub("graphs", n, |l, _idx, rng| {
         let m = gen_graph(rng);
         check_graph(l, &m, rng);
+    });
+    let nh = if cfg!(miri) { 1 } else { run.tier.n(300, 6000) };
+    run.sub("high-degree-hubs", nh, |l, _idx, rng| {
+        let m = high_degree_graph(rng);
+        // roots: the hub, the two nodes closing the cycle and their common neighbour, the pendant node
+        let hub_is_col = m.family.starts_with("hub-column");
+        let mut roots: Vec<usize> = Vec::new();
+        if hub_is_col {
+            roots.push(m.rows); // Col(0)
+            roots.push(m.rows + 1);
+            roots.push(m.rows + 2);
+            for &(r, c) in &m.e {
+                if c == 1 {
+                    roots.push(r);
+                }
+            }
+        } else {
+            roots.push(0);
+            roots.push(1);
+            roots.push(2);
+            for &(r, c) in &m.e {
+                if r == 1 {
+                    roots.push(m.rows + c);
+                }
+            }
+        }
+        check_graph_roots(l, &m, &roots);
     });
     run.sub_seq("directed", 1, |l, _idx, rng| {
         // the witness of the repaired defect: 4-cycle plus pendant path
